@@ -22,10 +22,8 @@ theorem msw_named_slots :
 
 /-- Members of RstSegment whose reader shape is not the inverse of the writer shape, with the reason. -/
 def sdeclaredExceptions : List (String × String) :=
-  [("segment.volume", "written as length³ (ft³ in FIELD), read with measure volume (rb in FIELD)"),
-   ("segment.total_flow", "oil + 0.1·water + gfactor·gas of output-unit rates: not a quantity of one measure; read with measure rate"),
-   ("segment.transition_region_width", "WSEGSICD item 9 is dimensionless and written unconverted; read with measure length"),
-   ("segment.max_valid_flow_rate", "written with geometric_volume_rate, read with rate (ft³/day vs rb/day in FIELD)")]
+  [("segment.volume", "written as (length unit)³, read with measure geometric_volume since fix 7808e0fb5: the same factor in every unit system (C02), but not the same *shape* in this table model"),
+   ("segment.total_flow", "oil + 0.1·water + gfactor·gas of output-unit rates: not a quantity of one measure; read with measure rate")]
 
 /-- ISEG / RSEG: every (writer entry, reader entry) pair on one item is in a compatible class except the declared
 members, and each declared member really is a mismatch. -/
@@ -36,10 +34,10 @@ theorem msw_pairs_classified :
 
 /-- Outside the declared members: the classes present (areas as k-fold length-unit factors are `exactScale`). -/
 theorem msw_pair_class_histogram :
-    ((spairs swriter sreader).filter fun p => spairCls p = .exact).length = 33 ∧
+    ((spairs swriter sreader).filter fun p => spairCls p = .exact).length = 35 ∧
     ((spairs swriter sreader).filter fun p => spairCls p = .exactScale).length = 3 ∧
     ((spairs swriter sreader).filter fun p => spairCls p = .signedSmry).length = 2 ∧
-    ((spairs swriter sreader).filter fun p => spairCls p = .mismatch).length = 6 := by decide +kernel
+    ((spairs swriter sreader).filter fun p => spairCls p = .mismatch).length = 4 := by decide +kernel
 
 /-- Recognised reader members without a recognised writer entry (the writer computes them from other items). -/
 theorem msw_unpaired_reader_fields :
